@@ -14,10 +14,11 @@ import (
 // ------------------------------------------------------------------- hex ----
 
 type hexChk struct {
-	c     *ev.Case
-	hash  uint64
-	n     int
-	first string
+	c      *ev.Case
+	hash   uint64
+	n      int
+	ne, nd int // encodes / decodes so far (the named-type turn is every 8th of each)
+	first  string
 }
 
 func (k *hexChk) note(kind byte, b []byte) {
@@ -55,20 +56,34 @@ func (k *hexChk) encode(raw []byte) bool {
 			return false
 		}
 	}
-	if k.n%8 == 0 {
+	// named string / byte-slice types: every 8th encode (counted separately from
+	// the decodes, which alternate with the encodes in most engines)
+	k.ne++
+	if k.ne%8 == 0 {
 		var g1, g2 []byte
+		var s1, s2 string
 		if !c.Guard("HexEncode[myStr]", func() { g1 = strz.HexEncode(myStr(in.s)) }) ||
-			!c.Guard("HexEncode[myBytes]", func() { g2 = strz.HexEncode(myBytes(in.b)) }) {
+			!c.Guard("HexEncode[myBytes]", func() { g2 = strz.HexEncode(myBytes(in.b)) }) ||
+			!c.Guard("HexEncodeToString[myStr]", func() { s1 = strz.HexEncodeToString(myStr(in.s)) }) ||
+			!c.Guard("HexEncodeToString[myBytes]", func() { s2 = strz.HexEncodeToString(myBytes(in.b)) }) {
 			return false
 		}
-		if string(g1) != want || string(g2) != want {
-			c.Failf("hex-encode", "HexEncode on named types (%s) = %s / %s, encoding/hex gives %s", clip(raw), clip(g1), clip(g2), clipS(want))
+		if string(g1) != want || string(g2) != want || s1 != want || s2 != want {
+			c.Failf("hex-encode", "HexEncode / HexEncodeToString on named types (%s) = %s / %s / %s / %s, encoding/hex gives %s", clip(raw), clip(g1), clip(g2), clipS(s1), clipS(s2), clipS(want))
 			return false
 		}
+		c.Add("hex_named_type_encode_calls", 4)
 	}
 	c.Add("hex_encode_inputs", 1)
+	if len(raw) == 0 {
+		c.Add("hex_encode_empty_inputs", 1)
+	}
 	return in.intact(c, "HexEncode/HexEncodeToString")
 }
+
+// strBytes turns the (string, error) of a ...ToString routine into the
+// ([]byte, error) the comparison loop works on.
+func strBytes(s string, err error) ([]byte, error) { return []byte(s), err }
 
 func sameErr(got, want error) (presence, text bool) {
 	if (got != nil) != (want != nil) {
@@ -94,16 +109,31 @@ func (k *hexChk) decode(src []byte) bool {
 		b    []byte
 		err  error
 	}
-	rs := make([]res, 4)
-	rs[0].name, rs[1].name, rs[2].name, rs[3].name = "HexDecode[string]", "HexDecode[[]byte]", "HexDecodeToString[string]", "HexDecodeToString[[]byte]"
-	var s2, s3 string
-	if !c.Guard(rs[0].name, func() { rs[0].b, rs[0].err = strz.HexDecode(in.s) }) ||
-		!c.Guard(rs[1].name, func() { rs[1].b, rs[1].err = strz.HexDecode(in.b) }) ||
-		!c.Guard(rs[2].name, func() { s2, rs[2].err = strz.HexDecodeToString(in.s) }) ||
-		!c.Guard(rs[3].name, func() { s3, rs[3].err = strz.HexDecodeToString(in.b) }) {
+	var rs []res
+	call := func(name string, f func() ([]byte, error)) bool {
+		r := res{name: name}
+		if !c.Guard(name, func() { r.b, r.err = f() }) {
+			return false
+		}
+		rs = append(rs, r)
+		return true
+	}
+	if !call("HexDecode[string]", func() ([]byte, error) { return strz.HexDecode(in.s) }) ||
+		!call("HexDecode[[]byte]", func() ([]byte, error) { return strz.HexDecode(in.b) }) ||
+		!call("HexDecodeToString[string]", func() ([]byte, error) { return strBytes(strz.HexDecodeToString(in.s)) }) ||
+		!call("HexDecodeToString[[]byte]", func() ([]byte, error) { return strBytes(strz.HexDecodeToString(in.b)) }) {
 		return false
 	}
-	rs[2].b, rs[3].b = []byte(s2), []byte(s3)
+	k.nd++
+	if k.nd%8 == 0 {
+		if !call("HexDecode[myStr]", func() ([]byte, error) { return strz.HexDecode(myStr(in.s)) }) ||
+			!call("HexDecode[myBytes]", func() ([]byte, error) { return strz.HexDecode(myBytes(in.b)) }) ||
+			!call("HexDecodeToString[myStr]", func() ([]byte, error) { return strBytes(strz.HexDecodeToString(myStr(in.s))) }) ||
+			!call("HexDecodeToString[myBytes]", func() ([]byte, error) { return strBytes(strz.HexDecodeToString(myBytes(in.b))) }) {
+			return false
+		}
+		c.Add("hex_named_type_decode_calls", 4)
+	}
 	for _, r := range rs {
 		if c.Logging() {
 			c.Logf("  %s -> (%s, %v)", r.name, clip(r.b), r.err)
@@ -156,6 +186,10 @@ func (k *hexChk) decode(src []byte) bool {
 	}
 	// coverage
 	c.Add("hex_decode_inputs", 1)
+	c.Add("hex_inplace_calls", 1)
+	if len(src) == 0 {
+		c.Add("hex_decode_empty_inputs", 1)
+	}
 	switch {
 	case werr == nil:
 		c.Add("hex_decode_ok", 1)
@@ -347,10 +381,11 @@ var b64Encs = []b64Enc{
 }
 
 type b64Chk struct {
-	c     *ev.Case
-	hash  uint64
-	n     int
-	first string
+	c      *ev.Case
+	hash   uint64
+	n      int
+	ne, nd int // encodes / decodes so far (the named-type turn is every 8th of each)
+	first  string
 }
 
 func (k *b64Chk) note(kind byte, e int, b []byte) {
@@ -385,18 +420,26 @@ func (k *b64Chk) encode(e int, raw []byte) bool {
 			return false
 		}
 	}
-	if k.n%8 == 0 {
+	k.ne++
+	if k.ne%8 == 0 {
 		var g1, g2 []byte
+		var s1, s2 string
 		if !c.Guard("Base64Encode[myStr]", func() { g1 = strz.Base64Encode(myStr(in.s), enc) }) ||
-			!c.Guard("Base64Encode[myBytes]", func() { g2 = strz.Base64Encode(myBytes(in.b), enc) }) {
+			!c.Guard("Base64Encode[myBytes]", func() { g2 = strz.Base64Encode(myBytes(in.b), enc) }) ||
+			!c.Guard("Base64EncodeToString[myStr]", func() { s1 = strz.Base64EncodeToString(myStr(in.s), enc) }) ||
+			!c.Guard("Base64EncodeToString[myBytes]", func() { s2 = strz.Base64EncodeToString(myBytes(in.b), enc) }) {
 			return false
 		}
-		if string(g1) != want || string(g2) != want {
-			c.Failf("base64-encode", "Base64Encode on named types (%s, %s) = %s / %s, encoding/base64 gives %s", clip(raw), b64Encs[e].name, clip(g1), clip(g2), clipS(want))
+		if string(g1) != want || string(g2) != want || s1 != want || s2 != want {
+			c.Failf("base64-encode", "Base64Encode / Base64EncodeToString on named types (%s, %s) = %s / %s / %s / %s, encoding/base64 gives %s", clip(raw), b64Encs[e].name, clip(g1), clip(g2), clipS(s1), clipS(s2), clipS(want))
 			return false
 		}
+		c.Add("b64_named_type_encode_calls", 4)
 	}
 	c.Add("b64_encode_inputs", 1)
+	if len(raw) == 0 {
+		c.Add("b64_encode_empty_inputs", 1)
+	}
 	c.Add("b64_enc/"+b64Encs[e].name, 1)
 	return in.intact(c, "Base64Encode/Base64EncodeToString")
 }
@@ -415,16 +458,31 @@ func (k *b64Chk) decode(e int, src []byte) bool {
 		b    []byte
 		err  error
 	}
-	rs := make([]res, 4)
-	rs[0].name, rs[1].name, rs[2].name, rs[3].name = "Base64Decode[string]", "Base64Decode[[]byte]", "Base64DecodeToString[string]", "Base64DecodeToString[[]byte]"
-	var s2, s3 string
-	if !c.Guard(rs[0].name, func() { rs[0].b, rs[0].err = strz.Base64Decode(in.s, enc) }) ||
-		!c.Guard(rs[1].name, func() { rs[1].b, rs[1].err = strz.Base64Decode(in.b, enc) }) ||
-		!c.Guard(rs[2].name, func() { s2, rs[2].err = strz.Base64DecodeToString(in.s, enc) }) ||
-		!c.Guard(rs[3].name, func() { s3, rs[3].err = strz.Base64DecodeToString(in.b, enc) }) {
+	var rs []res
+	call := func(name string, f func() ([]byte, error)) bool {
+		r := res{name: name}
+		if !c.Guard(name, func() { r.b, r.err = f() }) {
+			return false
+		}
+		rs = append(rs, r)
+		return true
+	}
+	if !call("Base64Decode[string]", func() ([]byte, error) { return strz.Base64Decode(in.s, enc) }) ||
+		!call("Base64Decode[[]byte]", func() ([]byte, error) { return strz.Base64Decode(in.b, enc) }) ||
+		!call("Base64DecodeToString[string]", func() ([]byte, error) { return strBytes(strz.Base64DecodeToString(in.s, enc)) }) ||
+		!call("Base64DecodeToString[[]byte]", func() ([]byte, error) { return strBytes(strz.Base64DecodeToString(in.b, enc)) }) {
 		return false
 	}
-	rs[2].b, rs[3].b = []byte(s2), []byte(s3)
+	k.nd++
+	if k.nd%8 == 0 {
+		if !call("Base64Decode[myStr]", func() ([]byte, error) { return strz.Base64Decode(myStr(in.s), enc) }) ||
+			!call("Base64Decode[myBytes]", func() ([]byte, error) { return strz.Base64Decode(myBytes(in.b), enc) }) ||
+			!call("Base64DecodeToString[myStr]", func() ([]byte, error) { return strBytes(strz.Base64DecodeToString(myStr(in.s), enc)) }) ||
+			!call("Base64DecodeToString[myBytes]", func() ([]byte, error) { return strBytes(strz.Base64DecodeToString(myBytes(in.b), enc)) }) {
+			return false
+		}
+		c.Add("b64_named_type_decode_calls", 4)
+	}
 	for _, r := range rs {
 		if c.Logging() {
 			c.Logf("  %s -> (%s, %v)", r.name, clip(r.b), r.err)
@@ -444,6 +502,9 @@ func (k *b64Chk) decode(e int, src []byte) bool {
 		}
 	}
 	c.Add("b64_decode_inputs", 1)
+	if len(src) == 0 {
+		c.Add("b64_decode_empty_inputs", 1)
+	}
 	if werr == nil {
 		c.Add("b64_decode_ok", 1)
 	} else {
